@@ -7,6 +7,7 @@ import (
 	"errors"
 	"fmt"
 	"maps"
+	"math"
 	"sort"
 	"sync"
 	"sync/atomic"
@@ -1456,6 +1457,37 @@ func (b *beacon) getTimestampFromTreasure(t treasure.Treasure) int64 {
 	}
 }
 
+// the instants between which time.Time.UnixNano is representable (1677-09-21 … 2262-04-11)
+var (
+	minNanoTime = time.Unix(0, math.MinInt64)
+	maxNanoTime = time.Unix(0, math.MaxInt64)
+)
+
+// WindowNanos converts the optional bounds of a [from, to) time window to UnixNano. Outside
+// minNanoTime…maxNanoTime UnixNano wraps around, so such a bound is not converted: every stored
+// timestamp lies inside the range, hence a lower bound below it or an upper bound above it
+// restricts nothing (hasFrom / hasTo false), and a lower bound above it or an upper bound below
+// it leaves nothing (empty).
+func WindowNanos(from, to *time.Time) (fromNano, toNano int64, hasFrom, hasTo, empty bool) {
+	if from != nil {
+		switch {
+		case from.After(maxNanoTime):
+			return 0, 0, false, false, true
+		case !from.Before(minNanoTime):
+			fromNano, hasFrom = from.UnixNano(), true
+		}
+	}
+	if to != nil {
+		switch {
+		case to.Before(minNanoTime):
+			return 0, 0, false, false, true
+		case !to.After(maxNanoTime):
+			toNano, hasTo = to.UnixNano(), true
+		}
+	}
+	return
+}
+
 // findTimeRangeBounds locates the inclusive start and end indices in the ordered slice
 // for treasures whose timestamp falls within a half-open time window [fromTime, toTime).
 // Half-open semantics:
@@ -1482,12 +1514,15 @@ func (b *beacon) findTimeRangeBounds(fromTime, toTime *time.Time) (int, int) {
 		return 0, -1
 	}
 
-	var fromNano, toNano int64
-	if fromTime != nil {
-		fromNano = fromTime.UTC().UnixNano()
+	fromNano, toNano, hasFrom, hasTo, empty := WindowNanos(fromTime, toTime)
+	if empty {
+		return 0, -1
 	}
-	if toTime != nil {
-		toNano = toTime.UTC().UnixNano()
+	if !hasFrom {
+		fromTime = nil
+	}
+	if !hasTo {
+		toTime = nil
 	}
 
 	isAscending := b.sortOrder == SortByExpirationTimeAsc ||
